@@ -13,6 +13,8 @@ uninterp spec fn val_bool(b: bool) -> Value;
 uninterp spec fn bool_of(v: Value) -> bool;
 uninterp spec fn val_float(f: f64) -> Value;
 uninterp spec fn float_of(v: Value) -> f64;
+uninterp spec fn val_addr(a: ProgramCounter) -> Value;
+uninterp spec fn val_sptr(p: *mut StringObject) -> Value;   // From<*mut StringObject> for Value
 
 spec fn tag_of(v: Value) -> ValueTag { v.1 }
 
